@@ -216,6 +216,7 @@ GROUPS = {
     "fmt": ("GenFmt.v", "TieFmt.v", ["tie_fields"]),
     "load": ("GenLoad.v", "TieLoad.v", ["tie_read_offline"]),
     "selector": ("GenSelector.v", "TieSelector.v", ["tie_selector"]),
+    "guards": ("GenGuards.v", "TieGuards.v", ["tie_join_guard", "tie_record_flag"]),
     "reader": ("GenReader.v", "TieReader.v", ["tie_reader_params", "tie_lim_read", "tie_rec_read", "tie_fixed_read", "tie_ov_first", "tie_ov_next"]),
     "loops": ("GenLoops.v", "TieLoops.v", ["tie_run_turn", "tie_stop_requested", "tie_tok_read", "tie_programs"]),
 }
@@ -1413,7 +1414,12 @@ def gen_selector(repo):
     return selector.emit(repo)
 
 
-GENERATORS = {"selector": gen_selector, "load": gen_load, "reader": gen_reader, "loops": gen_loops, "savers": gen_savers, "fsrc": gen_fsrc, "algebra": gen_algebra, "split": gen_split, "dur": gen_dur, "region": gen_region, "silence": gen_silence, "buf": gen_buf, "fmt": gen_fmt}
+def gen_guards(repo):
+    from . import kwargs
+    return kwargs.emit(repo)
+
+
+GENERATORS = {"guards": gen_guards, "selector": gen_selector, "load": gen_load, "reader": gen_reader, "loops": gen_loops, "savers": gen_savers, "fsrc": gen_fsrc, "algebra": gen_algebra, "split": gen_split, "dur": gen_dur, "region": gen_region, "silence": gen_silence, "buf": gen_buf, "fmt": gen_fmt}
 
 
 def emit_group(repo, group):
